@@ -177,3 +177,9 @@ def _register_eager():
 
 
 from . import h_c13  # noqa: E402,F401  (registers the eager_* conditions above via h_c13's last line)
+
+# dropped from the thorough tier (directed 3x3 / all-sources conditions that ran past 60 min without exhausting; see DESIGN.md 12.9)
+import re as _re  # noqa: E402
+for _n in [n for n, c in REG.conds.items() if c.tier == "thorough" and _re.search(r"^all_trp_d_|^trp_d_int_ids012_N3_u0_vN_se_p[23]$", n)]:
+    del REG.conds[_n]
+
